@@ -81,7 +81,7 @@ Fixpoint insert_pairs (cols : list node) (rel : node) (i : nat) (vals : list nod
       let cand := if unwrap then (if is_kind "ResTarget" v then kid "Val" v else Nil) else v in
       if is_kind "ParamRef" cand then
         match nth_node cols i with
-        | None => Panic "index out of range: n.Cols.Items[i]"
+        | None => insert_pairs cols rel (S i) rest unwrap acc      (* no column at this position: left to the generic walk *)
         | Some c =>
             insert_pairs cols rel (S i) rest unwrap
               (fst acc ++ [mkPR (PNode c) rel cand ""], snd acc ++ [loc_of cand])
@@ -120,11 +120,7 @@ Definition visit_param (st : pstate) (n : node) (acc : pacc) : result (option ps
       match items_opt (kid "TargetList" s), items_opt (kid "ValuesLists" s) with
       | Some tl, Some vl =>
           let cols := kid "Cols" n in
-          if is_nil cols && (existsb (fun t => is_kind "ResTarget" t && is_kind "ParamRef" (kid "Val" t)) tl
-                             || existsb (fun r => existsb (is_kind "ParamRef") (items r)) vl)
-          then Panic "nil dereference: n.Cols.Items"
-          else
-            do a1 <- insert_pairs (items cols) (kid "Relation" n) 0 tl true acc;
+          do a1 <- insert_pairs (items cols) (kid "Relation" n) 0 tl true acc;
             do a2 <- insert_rows (items cols) (kid "Relation" n) vl a1;
             Ok (Some st, a2)
       | _, _ => Panic "nil dereference: TargetList/ValuesLists"
@@ -712,7 +708,7 @@ Definition resolve_one (e : env) (tables : list tname) (aliases : list (string *
                     Ok [mkP num (Some (mkQC (pname key) (data_type (col_type col)) (col_notnull col) (col_array col) "" (Some t)))]
                 | _ => err_at (loc_of lref) (e_col_ambiguous key)
                 end
-            | _ => Panic "too many field items"
+            | _ => err_at (loc_of lref) "unsupported column reference next to a parameter"
             end
         end
       else if String.eqb k "FuncCall" then
@@ -753,7 +749,7 @@ Definition resolve_one (e : env) (tables : list tname) (aliases : list (string *
                            end
                          else match named_ty with
                               | Some a => Ok (arg_name, fa_type a)
-                              | None => Panic "named argument has no type"
+                              | None => err_at (loc_of n) "function has no argument of that name"
                               end in
                        do pt <- pn_ty;
                        do r <- go rest (S i);
@@ -770,7 +766,7 @@ Definition resolve_one (e : env) (tables : list tname) (aliases : list (string *
               if is_nil (pr_rv ref) then
                 match default_table with
                 | Some d => Ok (tn_schema d, tn_name d)
-                | None => Panic "nil dereference: defaultTable.Schema"
+                | None => err_at (loc_of n) "could not determine data type of parameter"
                 end
               else let f := table_of_rangevar (pr_rv ref) in Ok (tn_schema f, tn_name f) in
             do sr <- tbl;
